@@ -1167,6 +1167,7 @@ func (t *TBtree) wrapNwarn(formattedMessage string, args ...interface{}) error {
 }
 
 func (t *TBtree) flushTree(cleanupPercentageHint float32, forceSync bool, forceCleanup bool, src string) (wN int64, wH int64, err error) {
+	verifhook.Point("tbtree.flushTree")
 	if cleanupPercentageHint < 0 || cleanupPercentageHint > 100 {
 		return 0, 0, fmt.Errorf("%w: invalid cleanupPercentage", ErrIllegalArguments)
 	}
